@@ -27,7 +27,7 @@ COMPONENTS = {'real': ['yldprolog.engine assert_fact/Answer/match_dynamic/assert
               'stub': ['scheduler holding the open unifications and suspended uses'],
               'oracle': ['copy-semantics model: ASSERT stores resolve(term, current substitution) with remaining variables made fact-local; every USE renames the fact apart']}
 REQUIRED_PROBES = ('store_prefilled_with_many_facts', 'fault_assert_overflow', 'fault_use_aborted', 'independent_use_stepped_while_others_suspended', 'assert_with_bound_variable', 'assert_with_unbound_variable', 'assert_bound_inside_structure', 'use_answer', 'use_while_other_use_suspended',
-                   'use_after_binding_changed', 'nonground_fact_answered', 'route_fact', 'route_query', 'route_wrapv', 'route_inline', 'equal_constants_of_different_types_stored')
+                   'use_after_binding_changed', 'nonground_fact_answered', 'route_fact', 'route_query', 'route_wrapv', 'route_inline', 'equal_constants_of_different_types_stored', 'assert_compiled_with_anonymous_variable')
 
 _WRAP = None
 WRAP_SRC = '''
@@ -36,6 +36,7 @@ wv_asserta(T) :- G = T, asserta(G).
 ia1(A) :- assertz(p(A)).
 ia2(A,B) :- assertz(p(A,B)).
 ib1(A) :- X = f(A), assertz(p(X)).
+ic1(A) :- assertz(p(g(A,_))).
 '''
 
 
@@ -101,7 +102,7 @@ def gen(seed, tier):
             ops.append(['POP', rng.choice(('close', 'drop', 'resume', 'throw'))])
         elif k < 0.58:
             ar = rng.choice((1, 1, 2))
-            ops.append(['ASSERT', rng.random() < 0.25, rng.choice(('fact', 'query', 'wrapv', 'inline', 'inlinef')), [small_term(rng, nv) for _ in range(ar)]])
+            ops.append(['ASSERT', rng.random() < 0.25, rng.choice(('fact', 'query', 'wrapv', 'inline', 'inlinef', 'inlinea')), [small_term(rng, nv) for _ in range(ar)]])
         elif k < 0.78:
             ar = rng.choice((1, 1, 2))
             pat = []
@@ -344,9 +345,11 @@ def execute(plan):
                 if any(not TM.is_ground(t) for t in stored):
                     log.count('assert_with_unbound_variable')
                 eargs = [pool.build(t) for t in targs]
-                if route == 'inlinef' and len(targs) != 1:
+                if route in ('inlinef', 'inlinea') and len(targs) != 1:
                     route = 'inline'
-                log.count('route_' + ('inline' if route == 'inlinef' else route))
+                if route == 'inlinea':
+                    log.count('assert_compiled_with_anonymous_variable')
+                log.count('route_' + ('inline' if route in ('inlinef', 'inlinea') else route))
                 if route == 'fact':
                     yp.assert_fact(yp.atom('p'), eargs, not front)
                 elif route == 'query':
@@ -357,6 +360,11 @@ def execute(plan):
                     front = False
                     stored = [('f', 'f', (stored[0],))]
                     n = sum(1 for _ in yp.query('ib1', eargs))
+                elif route == 'inlinea':
+                    # the clause's own anonymous variable inside the asserted term: fact-local like any other
+                    front = False
+                    stored = [('f', 'g', (stored[0], ('v', 5000)))]
+                    n = sum(1 for _ in yp.query('ic1', eargs))
                 else:
                     front = False
                     n = sum(1 for _ in yp.query('ia%d' % len(eargs), eargs))
